@@ -25,6 +25,12 @@ theorem Safe.bind {α β : Type} {x : Except Err α} {f : α → Except Err β} 
   | ok a => exact hf a hx
   | error e => cases e <;> simp_all [Safe, Bind.bind, Except.bind]
 
+theorem Safe.bind_eq {α β : Type} {x : Except Err α} {f : α → Except Err β} {P : α → Prop} {Q : β → Prop}
+    (hx : Safe x P) (hf : ∀ a, x = .ok a → P a → Safe (f a) Q) : Safe (x >>= f) Q := by
+  cases x with
+  | ok a => exact hf a rfl hx
+  | error e => cases e <;> simp_all [Safe, Bind.bind, Except.bind]
+
 theorem Safe.mono {α : Type} {x : Except Err α} {P Q : α → Prop} (hx : Safe x P) (h : ∀ a, P a → Q a) : Safe x Q := by
   cases x with
   | ok a => exact h a hx
